@@ -45,7 +45,6 @@ static void run_script(const std::vector<std::string> &lines) {
         if (any && !unres && !r.rejected) {
             mark_new_vertices(w, a.nv);
             Snap b = take_snap(w);
-            (void)valid_for_c01(b);          // records a history that leaves the contract
             OracleOut out{o};
             auto echo = split_ws(r.echo);
             const std::string &op = echo[0];
@@ -98,6 +97,7 @@ static void run_script(const std::vector<std::string> &lines) {
                     }
                 }
             }
+            note_history(b, op);             // after the oracles of this step
         }
         std::string s = o.str();
         fwrite(s.data(), 1, s.size(), stdout);
